@@ -41,14 +41,14 @@ EXTRA = {
  "C03": " Enumerated and float families run in both build profiles as well; a sample of the large scenarios (one long result contour, stacked result edges, a high-degree vertex, a long sweep line dropped early) also runs in a build WITHOUT optimisation (harness profile unopt = the default cargo build), where recursion that the optimiser turns into a loop keeps its frames.",
  "C04": " On float operands C04_F decides the same clauses exactly on the bit patterns: closed, >= 3 distinct vertices, non-zero area, counter-clockwise when the sweep ran, every edge within 2^-30 (f64) / 2^-16 (f32) of the coordinate magnitude of ONE input edge, every vertex an input vertex bitwise or that close to two input edges on different lines.",
  "C10": " f32 float operands (irrational affine images) are judged by the exact float laws with single-precision tolerances.",
- "C05": " The laws are proved consequences of the contract for arbitrary regions (TLAPS, BoolOpsLaws.tla) and checked on bounded call histories (BoolOpsAbs.tla).",
+ "C05": " Float operands (irrational affine images): each of the results of one pair must be the named combination at every admissible witness. The laws are proved consequences of the contract for arbitrary regions (TLAPS, BoolOpsLaws.tla) and checked on bounded call histories (BoolOpsAbs.tla).",
  "C06": " Bounding boxes that merely touch (family cxsplit: tips on the interior of a long side, sides shared in part) must give the obvious result as a region read polygon by polygon and as a valid polygon set (C06_TouchingBoxes). The laws are proved consequences of the contract for arbitrary regions (TLAPS, BoolOpsLaws.tla) and checked on bounded call histories (BoolOpsAbs.tla); A op A is called both with two equal objects and with one object passed twice.",
  "C07": " A further batch on multi-part operands with partial collinear overlaps (the result must not depend on the order of the parts).",
  "C08": " Families whose treatment depends on the sweep direction (a vertex of another part on a shared edge, boxes that merely touch, slivers hanging into the other box) are run under every symmetry.",
  "C13": " Enumerated families and the families tshare / hang / cxsplit are stage-recorded too; Layer M runs on generator inputs.",
  "C14": " The recorded finding N3 (stale inherited prev_in_result) is accepted only where the TRANSCRIPTION of the pinned algorithm (Layer M, strictcls) produces a stale pointer itself: on the inputs of Layer M a stale pointer that the model does not have is a violation.",
  "C15": " One stage run in five hands the zeros of an operand over as -0.0 (equal points with different bits).",
- "C09": " Family hang (a sliver reaching into, through or under a corner of the other operand's box, its outer edges completely beyond the box) with far parts sized relative to the operands (a far part that moves the box in the other direction too). Crossing-comb scenarios with and without a far part are judged by the closed-form contract of TraceStack.tla; the far-part lemmas are proved in BoolOpsLaws.tla (TLAPS).",
+ "C09": " Float operands: one session in three carries a far part on A as a base operand of its own, judged at witness points. Family hang (a sliver reaching into, through or under a corner of the other operand's box, its outer edges completely beyond the box) with far parts sized relative to the operands (a far part that moves the box in the other direction too). Crossing-comb scenarios with and without a far part are judged by the closed-form contract of TraceStack.tla; the far-part lemmas are proved in BoolOpsLaws.tla (TLAPS).",
  "C11": " Chained calls on float operands (families whose results contain no computed points) are judged at witness points against the Boolean expression over the base operands. Half of the chain sessions run on operands normalised by the library itself (A u A, B n B), so that fed-back results can coincide ring by ring with operands; the named identities are proved in BoolOpsLaws.tla (TLAPS).",
  "C12": " Between the first and the repeated calls the sessions make calls that PANIC inside the library (the recorded finding N1) and are caught: what an interrupted call leaves behind on its thread must not reach the next call. Equal operands that are not bit-identical (every zero handed over as -0.0) must give equal results (C12_EqualOperands). Pure-f32 / pure-f64 sessions are recorded in two processes (cold, and after a warm-up call of the other type on another thread) and merged, so that equal calls are compared across process histories; equal operands are passed both as two objects and as one aliased object.",
  "C16": " An exact pass on FLOAT pairs (TracePIExact.tla): needles crossing at angles down to 2^-30, integer-valued coordinates up to 2^30 (f32: 2^20) in power-of-two frames, general crossings, exact T-touches, common end points, end points on the other line beyond the segment - classified exactly from the orientation signs of the bit patterns, only robust configurations judged, every clause of the statement demanded. The same tuples are replayed with a queue that already holds an unrelated event of matching identity at an end point of the other segment (what the step adds must not depend on it).",
